@@ -6,8 +6,7 @@ Open Scope string_scope.
 Open Scope list_scope.
 
 Lemma valid_entries_ok : forall o bs ents, like o = false -> valid o (Node bs ents) = true ->
-  keys_ok ents /\ Forall (entry_ok o) ents
-  /\ Forall (fun kv => match snd kv with NData b _ => shape_eqb b bs = true | _ => True end) ents.
+  keys_ok ents /\ Forall (entry_ok o) ents /\ Forall (bs_ok bs) ents.
 Proof.
   intros o bs ents Hlike Hv. rewrite valid_node in Hv. apply andb_true_iff in Hv as [Hv Hents].
   apply andb_true_iff in Hv as [Hnd Hres]. split; [|].
@@ -18,12 +17,12 @@ Proof.
     destruct (IH Hents) as [A B]. split.
     + constructor; [|exact A]. unfold entry_ok. cbn [snd].
       destruct x; try (apply saved_ok_all; auto; fail). exact Hvx.
-    + constructor; [|exact B]. cbn [snd]. destruct x; auto.
+    + constructor; [|exact B]. unfold bs_ok. cbn [snd]. destruct x; auto.
 Qed.
 
 Lemma load_records_app : forall o es files rest,
   NoDup (map fst es) -> Forall (entry_ok o) es ->
-  (forall k l, In (k, Leaf l) es -> fget (FLeaf k) files = Some (CCells (ldtype l) (lcells l))) ->
+  (forall k l, In (k, Leaf l) es -> leaf_file_spec files k l) ->
   load_records files (recs es ++ rest)
   = bind (load_records files rest) (fun acc =>
       Ok (filter (fun kv => is_leaf (snd kv)) (norm_ents es) ++ fst acc, map fst (filter nonleaf es) ++ snd acc)).
@@ -52,6 +51,36 @@ Proof. intros A k l H. unfold smem in H. destruct (sget k l); [discriminate|refl
 Lemma recs_keys : forall ents, map fst (recs ents) = map fst ents.
 Proof. intro ents. unfold recs. rewrite map_map. reflexivity. Qed.
 
+Lemma fget_fset : forall f g c l, fget f (fset g c l) = if fname_eqb f g then Some c else fget f l.
+Proof.
+  intros f g c l. induction l as [|[g' c'] l IH].
+  - reflexivity.
+  - change (fset g c ((g', c') :: l)) with (if fname_eqb g g' then (g', c) :: l else (g', c') :: fset g c l).
+    destruct (fname_eqb g g') eqn:E.
+    + assert (g = g').
+      { destruct g, g'; cbn in E; try discriminate; auto. apply String.eqb_eq in E. now subst. }
+      subst g'. change (fget f ((g, c) :: l)) with (if fname_eqb f g then Some c else fget f l).
+      change (fget f ((g, c') :: l)) with (if fname_eqb f g then Some c' else fget f l).
+      destruct (fname_eqb f g); reflexivity.
+    + change (fget f ((g', c') :: fset g c l)) with (if fname_eqb f g' then Some c' else fget f (fset g c l)).
+      change (fget f ((g', c') :: l)) with (if fname_eqb f g' then Some c' else fget f l).
+      rewrite IH. destruct (fname_eqb f g') eqn:E2; auto.
+      destruct (fname_eqb f g) eqn:E3; auto.
+      assert (f = g'). { destruct f, g'; cbn in E2; try discriminate; auto. apply String.eqb_eq in E2. now subst. }
+      assert (f = g). { destruct f, g; cbn in E3; try discriminate; auto. apply String.eqb_eq in E3. now subst. }
+      subst. rewrite fname_eqb_refl in E. discriminate.
+Qed.
+
+Lemma leaf_file_spec_fset_meta : forall files c k l, leaf_file_spec files k l -> leaf_file_spec (fset FMeta c files) k l.
+Proof. intros files c k l H. unfold leaf_file_spec in *. rewrite fget_fset. exact H. Qed.
+
+Lemma leaf_file_spec_app_other : forall files k l k' c, k <> k' -> leaf_file_spec files k l -> leaf_file_spec (files ++ [(FLeaf k', c)]) k l.
+Proof.
+  intros files k l k' c Hne H. unfold leaf_file_spec in *. destruct (Nat.eqb (numel (lshape l)) 0).
+  - rewrite fget_app_none by exact H. cbn. destruct (String.eqb k k') eqn:E; auto. apply String.eqb_eq in E. contradiction.
+  - now apply fget_app_some.
+Qed.
+
 Lemma make_memmap_merge_lemma : forall o bs ents k l d,
   valid_root o (Node bs ents) = true -> leaf_ok o l = true -> reserved k = false -> smem k ents = false ->
   encode o (Node bs ents) = Ok d ->
@@ -62,7 +91,7 @@ Proof.
   unfold valid_root in Hv. apply andb_true_iff in Hv as [Hv _]. apply andb_true_iff in Hv as [Hv Hlike].
   apply negb_true_iff in Hlike.
   destruct (valid_entries_ok o bs ents Hlike Hv) as ([Hnd Hrsv] & Hok & Hbs).
-  destruct (save_ents_spec o ents [] [] Hlike Hnd) as (sl & E & F2); auto.
+  destruct (save_ents_spec o ents [] [] Hlike Hnd Hrsv) as (sl & E & F2); auto.
   unfold encode, empty_dir in Henc. rewrite save_over_node, E in Henc. cbn [bind fst snd List.app] in Henc.
   rewrite fset_fresh in Henc by apply fget_meta_leaf_files. inversion Henc; subst d. clear Henc.
   assert (Hkf : sget k ents = None) by now apply smem_false_sget.
@@ -70,16 +99,11 @@ Proof.
   rewrite node_meta_ok by (split; auto).
   set (tail3 := [("shape", jshape bs); ("device", JStr "cpu"); ("_type", JStr "TensorDict")]).
   set (m := recs ents ++ tail3).
-  cbn [grow_at]. rewrite Hk. unfold load_meta.
+  cbn [grow_at]. rewrite Hk, Hres. unfold load_meta.
   rewrite fget_app_none by apply fget_meta_leaf_files. cbn [fget fname_eqb bind].
-  assert (Hne : Nat.eqb (numel (lshape l)) 0 = false).
-  { unfold leaf_ok in Hl. apply andb_true_iff in Hl as [Hl _]. apply andb_true_iff in Hl as [Hl _].
-    apply andb_true_iff in Hl as [Hl _]. now apply negb_true_iff in Hl. }
-  rewrite Hne.
   set (files0 := leaf_files ents ++ [(FMeta, CJson (JObj m))]).
   assert (Hfk : fget (FLeaf k) files0 = None).
   { unfold files0. rewrite fget_app_none by (now apply fget_leaf_files_none). reflexivity. }
-  rewrite (fset_fresh (FLeaf k)) by exact Hfk.
   eexists. split; [reflexivity|].
   (* the rewritten metadata *)
   assert (Hmk : sget k m = None).
@@ -98,14 +122,25 @@ Proof.
     rewrite (J "shape" _ _ eq_refl). rewrite (J "device" _ _ eq_refl). rewrite (J "_type" _ _ eq_refl).
     reflexivity. }
   rewrite Hm'.
-  (* loading it *)
-  rewrite decode_dir. unfold load_top.
   set (newmeta := CJson (JObj (recs ents ++ tail3 ++ [(k, leaf_record l)]))).
-  assert (Hfm : fget FMeta (fset FMeta newmeta (files0 ++ [(FLeaf k, CCells (ldtype l) (lcells l))])) = Some newmeta).
-  { unfold files0. rewrite <- app_assoc. generalize (leaf_files ents) (fget_meta_leaf_files ents).
-    induction l0 as [|[f c] l0 IHl]; intro Hnone; cbn.
-    - reflexivity.
-    - destruct f; cbn in Hnone |- *; try discriminate Hnone; apply IHl; exact Hnone. }
+  set (filesk := if Nat.eqb (numel (lshape l)) 0 then files0 else fset (FLeaf k) (CCells (ldtype l) (lcells l)) files0).
+  set (files1 := fset FMeta newmeta filesk).
+  assert (Hold0 : forall k0 l0, In (k0, Leaf l0) ents -> leaf_file_spec filesk k0 l0).
+  { intros k0 l0 Hin.
+    assert (k0 <> k) by (intro; subst; apply Hkn; apply in_map_iff; exists (k, Leaf l0); auto).
+    pose proof (leaf_file_spec_app _ _ _ (CJson (JObj m)) (fget_leaf_files_spec ents k0 l0 Hnd Hin)) as G. fold files0 in G.
+    unfold filesk. destruct (Nat.eqb (numel (lshape l)) 0); auto.
+    rewrite fset_fresh by exact Hfk. now apply leaf_file_spec_app_other. }
+  assert (Hleaf_old : forall k0 l0, In (k0, Leaf l0) ents -> leaf_file_spec files1 k0 l0).
+  { intros. unfold files1. apply leaf_file_spec_fset_meta. auto. }
+  assert (Hleaf_new : leaf_file_spec files1 k l).
+  { unfold files1. apply leaf_file_spec_fset_meta. unfold leaf_file_spec, filesk.
+    destruct (Nat.eqb (numel (lshape l)) 0); auto.
+    rewrite fget_fset. cbn. now rewrite String.eqb_refl. }
+  (* loading it *)
+  rewrite decode_dir. unfold load_top. fold filesk. fold files1.
+  assert (Hfm : fget FMeta files1 = Some newmeta).
+  { unfold files1. rewrite fget_fset. reflexivity. }
   rewrite Hfm. unfold newmeta.
   assert (Et : sget "_type" (recs ents ++ tail3 ++ [(k, leaf_record l)]) = Some (JStr "TensorDict")).
   { rewrite sget_app_none by (now apply sget_recs_reserved). reflexivity. }
@@ -116,24 +151,6 @@ Proof.
   { rewrite jdel_app_none by (now apply sget_recs_reserved). cbn [tail3 List.app jdel String.eqb Ascii.eqb Bool.eqb].
     rewrite jdel_app_none by (now apply sget_recs_reserved). reflexivity. }
   rewrite Et. cbn [String.eqb Ascii.eqb Bool.eqb]. cbv beta iota. unfold load_node. rewrite Es, jshape_of_jshape, Ed.
-  set (files1 := fset FMeta newmeta (files0 ++ [(FLeaf k, CCells (ldtype l) (lcells l))])).
-  assert (Hleaf_old : forall k0 l0, In (k0, Leaf l0) ents -> fget (FLeaf k0) files1 = Some (CCells (ldtype l0) (lcells l0))).
-  { intros k0 l0 Hin. unfold files1, files0. rewrite <- app_assoc.
-    pose proof (fget_leaf_files_some ents k0 l0 Hnd Hin) as G. revert G. generalize (leaf_files ents).
-    induction l1 as [|[f c] l1 IHl]; [discriminate|]. destruct f as [kf| | |]; cbn.
-    - destruct (String.eqb k0 kf); auto.
-    - intro G. apply fget_app_some. exact G.
-    - exact IHl.
-    - exact IHl. }
-  assert (Hleaf_new : fget (FLeaf k) files1 = Some (CCells (ldtype l) (lcells l))).
-  { unfold files1, files0. rewrite <- app_assoc.
-    pose proof (fget_leaf_files_none ents k Hkn) as G. revert G. generalize (leaf_files ents).
-    induction l0 as [|[f c] l0 IHl]; [cbn; intros _; now rewrite String.eqb_refl|].
-    destruct f as [kf| | |]; cbn.
-    - destruct (String.eqb k kf); [discriminate|]. exact IHl.
-    - intro G. rewrite fget_app_none by exact G. cbn. now rewrite String.eqb_refl.
-    - exact IHl.
-    - exact IHl. }
   rewrite (load_records_app o ents files1); auto.
   rewrite !load_records_cons. cbn [load_record]. cbv beta iota.
   rewrite (load_record_leaf o files1 k l Hl Hleaf_new). cbn [bind load_records fst snd].
